@@ -2,6 +2,7 @@
 
 from __future__ import annotations
 from datetime import date
+import math
 from typing import List
 from .naming import _get_reserved_names
 from .naming import _sanitize_user_name
@@ -90,7 +91,7 @@ def _format_column(col, max_preview: int | None = None) -> List[str]:
 		elif v is None:
 			out.append('None')
 		elif col._dtype and col._dtype.kind is float:
-			out.append(f"{v:.1f}" if v == int(v) else f"{v:g}")
+			out.append(f"{v:.1f}" if math.isfinite(v) and v == int(v) else f"{v:g}")
 		elif col._dtype and col._dtype.kind is int:
 			out.append(str(v))
 		elif col._dtype and col._dtype.kind is date:
